@@ -226,6 +226,39 @@ func Run(r *fw.Run) {
 		r.Merge(l)
 	})
 
+	// (b2) prerelease pool: every single identifier of <= 4 characters and every pair of identifiers of
+	// <= 2 characters over {0 1 9 a -}: all pairs of "v1.0.0-<pre>" (identifiers with inner hyphens, numeric
+	// vs alphanumeric tails, different lengths)
+	idAlpha := []string{"0", "1", "9", "a", "-"}
+	var pres []string
+	for _, id := range enum.AllStrings(idAlpha, 4) {
+		if id != "" && semverref.Parse("v1.0.0-"+id).Valid {
+			pres = append(pres, "v1.0.0-"+id)
+		}
+	}
+	short := enum.AllStrings(idAlpha, 2)
+	for _, a := range short {
+		for _, b := range short {
+			if v := "v1.0.0-" + a + "." + b; a != "" && b != "" && semverref.Parse(v).Valid {
+				pres = append(pres, v)
+			}
+		}
+	}
+	pres = append(pres, "v1.0.0", "v1.0.0-a-10+x", "v1.0.1-0", "v1.0.0-20190101000000-900000000000", "v1.0.0-20190101000000-1000000000ab", "v1.0.0-0.20190101000000-abcdef", "v1.0.0-0.20190101000001-abcdef")
+	r.Bounds["prerelease_pool_size"] = len(pres)
+	fw.Parallel(len(pres), func(i int) {
+		l := fw.NewLocal()
+		for _, b := range pres {
+			l.Execs++
+			l.Transitions++
+			if msg := pair(pres[i], b); msg != "" {
+				r.Violation("pair:"+strconv.QuoteToASCII(pres[i])+","+strconv.QuoteToASCII(b), msg, caseT{"pair", q(pres[i], b)})
+			}
+		}
+		l.Nontrivial += int64(len(pres))
+		r.Merge(l)
+	})
+
 	// (c) triples over a sub-pool
 	nT := r.Pick(250, 600)
 	var T []string
